@@ -111,12 +111,16 @@ def check_arnoldi(ctx, A, v, m):
     if margin > 1e-5:
         ctx.ok('arnoldi.full-length-when-not-exhausted', k == m, f'Krylov dimension >= {m} but k={k}', detail)
     kk = min(k, kd)
-    # modified Gram-Schmidt loses orthogonality ~ eps * cond; restrict to well-separated residuals
-    if kk >= 1 and (kk == 1 or min(res[:kk - 1]) > 1e-5):
-        ctx.close('arnoldi.orthonormal', np.abs(V[:, :kk].conj().T @ V[:, :kk] - np.identity(kk)).max(), 1e-8, 'V^H V != I', detail)
-        ctx.close('arnoldi.projection', np.abs(V[:, :kk].conj().T @ A @ V[:, :kk] - H[:kk, :kk]).max() / nA, 1e-8, 'V^H A V != H', detail)
-    else:
-        ctx.skip('arnoldi.orthonormal')
+    # modified Gram-Schmidt loses orthogonality proportionally to the conditioning of the Krylov basis: 1e-8 is demanded where every
+    # residual of the leading part exceeds 1e-3 of ||A||, a bound growing like 1e-14 / min_residual^2 below that
+    if kk >= 1:
+        mr = 1.0 if kk == 1 else min(min(res[:kk - 1]), 1.0)
+        tol_o = max(1e-8, 1e-14 / mr ** 2)
+        if tol_o <= 1e-4:
+            ctx.close('arnoldi.orthonormal', np.abs(V[:, :kk].conj().T @ V[:, :kk] - np.identity(kk)).max(), tol_o, 'V^H V != I', detail)
+            ctx.close('arnoldi.projection', np.abs(V[:, :kk].conj().T @ A @ V[:, :kk] - H[:kk, :kk]).max() / nA, tol_o, 'V^H A V != H', detail)
+        else:
+            ctx.skip('arnoldi.orthonormal')
 
 
 GRID = [(n, m) for n in range(1, 11) for m in range(1, n + 6)]
